@@ -434,6 +434,10 @@ func c08Case(c *core.Ctx) *core.Result {
 			// section elements are untouched by appends
 			if countSect(before) != countSect(after) {
 				fail(op+"/append-changes-section-elements", "%s changed the number of section-properties elements %d -> %d", op, countSect(before), countSect(after))
+			} else if len(after) < len(before) || !sameSeq(before, after[:len(before)]) {
+				// new content goes to the END of the list: every element already there (section settings included, wherever
+				// they sit) keeps its index, or an index a caller holds for RemoveElementAt now names another element
+				fail(op+"/append-moves-existing-elements", "%s: the elements before [%s] are not the first elements after [%s]", op, describe(before), describe(after))
 			}
 			res.Count("appends_checked", 1)
 		case "settings":
@@ -442,6 +446,11 @@ func c08Case(c *core.Ctx) *core.Result {
 			}
 			if countSect(after) < countSect(before) || countSect(after) > countSect(before)+1 {
 				fail(op+"/settings-call-section-count", "%s: section-properties elements %d -> %d", op, countSect(before), countSect(after))
+			} else if !(sameSeq(before, after) || (len(after) == len(before)+1 && sameSeq(before, after[:len(before)]) && isSect(after[len(after)-1]))) {
+				// a page-setting or header/footer call is neither an append nor a removal: it either finds the section settings
+				// where they are or creates them where the list ends; an element that changes its index here makes the element index
+				// a caller holds name another element
+				fail(op+"/settings-call-moves-elements", "%s: body was [%s] and is [%s]", op, describe(before), describe(after))
 			}
 			res.Count("settings_calls_checked", 1)
 		case "remove":
